@@ -40,7 +40,7 @@ P("C01", RM + "panic/overflow/internal-error/progress monitors over hostile gene
   "Non-trivial = distinct input bytes (sweep: inputs that reach a handler).",
   ["termination is decided as bounded progress + watchdog; a watchdog suspect that does not reproduce is reported inconclusive, never as a violation",
    "absence of Miri/ASan reports covers only the executions interpreted; ASan is a red-zone tool"],
-  quick=[REL, DBG, asan(["--stages", "boundary,run,direct"]), miri(16, 1200)], thorough=[REL, DBG, miri(16, 3600, ["--tier", "thorough"], 1500), asan()],
+  quick=[REL, DBG, asan(["--stages", "boundary,run,direct"]), miri(16, 1200)], thorough=[REL, DBG, miri(16, 3600, ["--tier", "thorough"], 1500), asan(["--scale", "0.35"])],
   floors={"quick": {"evaluations": 3_000_000, "boundary.runs": 5_000, "inputs.reaching-a-handler": 100_000, "direct.tokens": 200_000},
           "thorough": {"evaluations": 100_000_000, "inputs.reaching-a-handler": 5_000_000}})
 
@@ -91,7 +91,7 @@ P("C09", RM + "round-trip oracle: emitted response text decoded by independent d
   "bool; ASCII strings with quotes/separators/control characters (non-ASCII must be refused); blocks around every header-width change up to 10^4 (10^6 thorough); &str; character and expression data; Vec/ArrayVec lists (empty refused); "
   "derived enums incl. suffix siblings; every standard error (found by sweeping get_error over all i16) and custom errors with/without extended text. Non-trivial = distinct values.",
   ["NaN/infinities are only checked against the SCPI sentinels; lower-case exponent mark (lexical-core's 1.0e10, pinned by the project's own tests) is counted as an observation, not judged"],
-  quick=[REL, DBG, miri(16, 900)], thorough=[REL, DBG, miri(16, 3600, ["--tier", "thorough"], 1500), asan(["--stages", "int,f64,text,errors"])],
+  quick=[REL, DBG, miri(16, 900)], thorough=[REL, DBG, miri(16, 3600, ["--tier", "thorough"], 1500), asan(["--stages", "int,f64,text,errors", "--scale", "0.3"])],
   floors={"quick": {"evaluations": 5_000_000, "f32.checked": 3_000_000, "string.checked": 100_000, "list.checked": 100_000}, "thorough": {"evaluations": 4_000_000_000}})
 
 P("C10", RM + "byte-exact comparison of the formatter buffer with the expected framing computed from the executed query units, plus structural re-check by an independent response splitter",
@@ -103,7 +103,7 @@ P("C11", RM + "capacity sweep with the genuine ArrayVec<u8,CAP> formatter for ev
   "framing messages (<=4 units) and hostile/corrupted/random inputs; every capacity 0..len+2 (168 instantiations up to 4096). Oracle: CAP>=len => Ok and identical bytes; else exactly -225, hook once, buffer <= CAP and a prefix of the response, no extra handler; "
   "failing messages fail at every capacity; allocation count across Node::run (ArrayVec formatter, non-allocating handlers) must be 0. Non-trivial = distinct (response, capacity) with exhaustion.",
   ["capacities are compile-time; 168 instantiations are explored", "allocations are counted per thread by a wrapper around the system allocator"],
-  quick=[REL, DBG, asan(), miri(16, 900)], thorough=[REL, DBG, miri(16, 3600, ["--tier", "thorough"], 1500), asan()],
+  quick=[REL, DBG, asan(), miri(16, 900)], thorough=[REL, DBG, miri(16, 3600, ["--tier", "thorough"], 1500), asan(["--scale", "0.2"])],
   floors={"quick": {"evaluations": 500_000, "does-not-fit": 300_000, "fits": 50_000, "runs.allocation-counted": 500_000}, "thorough": {"evaluations": 20_000_000}})
 
 P("C12", RM + "lock-step comparison of every queue operation with a reference FIFO (unique ids per pushed error) for both provided implementations and capacities 1..8,16,64; Miri",
